@@ -2147,7 +2147,10 @@ pub fn set_index(
                     }
                     Ok(())
                 } else {
-                    todo!("assgn to slice")
+                    return Err(NErr::type_error(
+                        "Can't assign to slice (only `every` slice assignment is implemented)"
+                            .to_string(),
+                    ));
                     // set_index(pythonic_mut(&mut Rc::make_mut(v), i)?, rest, value)
                 }
             }
